@@ -585,7 +585,7 @@ def write_evidence(prop, tier, seed, sel, results, vres, prep_log, kani_runs, vi
     vrows = []
     if vres:
         for u in vres["units"]:
-            vrows.append({k: u[k] for k in ("id", "status", "verified", "errors", "time_s", "functions", "dropped", "assumptions", "other_property_failures") if k in u})
+            vrows.append({k: u[k] for k in ("id", "status", "verified", "errors", "time_s", "functions", "dropped", "assumptions", "other_property_failures", "vacuity_guard") if k in u})
             if u["status"] in ("verified", "failed"):
                 # functions whose only failures are listed findings / obligations of another property are reported
                 # (known_findings_reported, other_property_failures) and not counted as obligations of this property
